@@ -1,0 +1,27 @@
+// SPDX-License-Identifier: Apache-2.0
+//! `SnapshotAccumulator` seam (property C06): the columnar accumulator's state root and WSC
+//! bytes for an arbitrary `WarpState`, optionally after applying ops to the accumulator.
+use crate::ident::{Hash, NodeKey};
+use crate::snapshot_accum::SnapshotAccumulator;
+use crate::tick_patch::WarpOp;
+use crate::warp_state::WarpState;
+
+/// `SnapshotAccumulator::from_warp_state(state).apply_ops(ops).build(root, schema_hash, tick)`
+/// → `(state_root, wsc_bytes)` (both crate-private today).
+pub fn accum_build(
+    state: &WarpState,
+    ops: Vec<WarpOp>,
+    root: &NodeKey,
+    schema_hash: Hash,
+    tick: u64,
+) -> (Hash, Vec<u8>) {
+    let mut acc = SnapshotAccumulator::from_warp_state(state);
+    acc.apply_ops(ops);
+    let out = acc.build(root, schema_hash, tick);
+    (out.state_root, out.wsc_bytes)
+}
+
+/// The accumulator's state root for `state` as it is.
+pub fn accum_root(state: &WarpState, root: &NodeKey) -> Hash {
+    accum_build(state, Vec::new(), root, [0u8; 32], 0).0
+}
